@@ -186,6 +186,7 @@ impl LsmVerifier {
             }
             last_outputs = Some(outputs);
             let mut computed_discard = Setsum::default();
+            let mut added_here = vec![];
             for added in edit.added() {
                 let setsum = Setsum::from_hexdigest(added)
                     .ok_or_else(|| corruption(format!("manifest added has bad digest: {added}")))?;
@@ -194,12 +195,18 @@ impl LsmVerifier {
                     self.verify_contents(setsum)?;
                 }
                 computed_discard -= setsum;
+                added_here.push(setsum);
             }
             for rmed in edit.rmed() {
                 let setsum = Setsum::from_hexdigest(rmed)
                     .ok_or_else(|| corruption(format!("manifest rmed has bad digest: {rmed}")))?;
                 computed_discard += setsum;
-                ssts_to_remove.push(setsum);
+                // A transaction that removes a file and adds it back (a compaction whose output is
+                // identical to one of its inputs) leaves the file live:  it never goes to the
+                // trash, and it is not this fragment's to remove.
+                if !added_here.contains(&setsum) {
+                    ssts_to_remove.push(setsum);
+                }
             }
             if !first {
                 if let Some(log_num) = edit.get_info('L') {
